@@ -527,6 +527,9 @@ def r5_status_conv(c, facts, rule='C04.R5'):
 
 
 def run(c, facts):
+    import c13 as _c13e
+    R18 = c.rule('C04.R18', 'ERR-DISC: a front end\'s loader stops at the first module that does not compile - an importer compiled against a module whose compilation stopped half-way meets nodes without a core and panics (shared with C13.R4)')
+    c.shared(R18, _c13e.r4_err_disc, 'C13.R4', facts)
     import lexrules
     c.run(lambda c: lexrules.status_digits(c, facts, 'C04.R12'))
     import c10 as _c10
